@@ -658,7 +658,7 @@ Fixpoint conv (a : ast) (st : state) {struct a} : M core :=
     | NSlice from to incl step =>
         cf <- conv from st ;; ct <- conv to st ;;
         cs <- (match step with Some s => conv s st | None => ret (Int "1") end) ;;
-        ret (FunctionCall (Id n_slice) [cf; if incl then ct else Bin CbSub ct (Int "1"); cs])
+        ret (FunctionCall (Id n_slice) [cf; if incl then Bin CbAdd ct (Int "1") else ct; cs])
     | NUnderscore => ret UnderScore
     | NRaise e => c <- conv e st ;; ret (Un CuRaise c)
     | NHandle e cases =>
